@@ -180,10 +180,8 @@ def spell_rule(sp, inner, r):
         _, pseudo, decls, margins = r
         name = sp.rng.choice([None, None, None, 'cover']) if sp.level >= 3 else None
         mid = ['m'] if (name and sp.level >= 2 and sp.rng.random() < 0.3) else []
-        if pseudo and sp.level >= 3 and sp.rng.random() < 0.3:
-            # the code keeps the pseudo-page name as written (known finding C02-page-pseudo-case); so does the model
-            pseudo = pseudo.upper()
-        sel = (name, mid, pseudo)
+        # :first / :left / :right are recognised in any case and with simple escapes; any other name is kept as written
+        sel = (name, mid, pseudo, sp.mask(pseudo) if pseudo else [])
         # with an empty selector the two gaps would be one in the text
         return ('page', sp.mask('page', True), sp.gap(need=bool(name)), sel, sp.gap() if (name or pseudo) else [],
                 spell_page_block(sp, inner, decls, margins), sp.wgap())
@@ -332,12 +330,12 @@ def t_page_block(b):
 
 
 def t_page_sel(sel):
-    name, mid, pseudo = sel
+    name, mid, pseudo, pmask = sel
     s = ''
     if name:
         s += name + ''.join('/*' + c + '*/' for c in mid)
     if pseudo:
-        s += ':' + pseudo
+        s += ':' + spell_name(pseudo, pmask)
     return s
 
 
@@ -482,7 +480,7 @@ def x_rule(r):
         return '( fontface %s %s %s %s )' % (x_mask(m), x_gap(g1), x_block(blk), x_wgap(w))
     if k == 'page':
         _, m, g0, sel, g1, blk, w = r
-        xs = '( %s ( %s ) %s )' % (x_opt(sel[0]), ' '.join(enc(c) for c in sel[1]), x_opt(sel[2]))
+        xs = '( %s ( %s ) %s %s )' % (x_opt(sel[0]), ' '.join(enc(c) for c in sel[1]), x_opt(sel[2]), x_mask(sel[3]))
         return '( page %s %s %s %s %s %s )' % (x_mask(m), x_gap(g0), xs, x_gap(g1), x_page_block(blk), x_wgap(w))
     raise ValueError(k)
 
